@@ -10,7 +10,8 @@ from pyvc.values import Num, lift, to_real, to_z3
 
 
 class Sigma:
-    def __init__(self, eng, name, nparams, term):
+    def __init__(self, eng, name, nparams, term, zero_rule=False):
+        self.zero_rule = zero_rule      # opt-in: costs one disjunctive axiom per queried sum (slow with nonlinear terms)
         self.eng = eng
         self.term = term
         self.nparams = nparams
@@ -20,7 +21,32 @@ class Sigma:
         ps, k = args[:-1], args[-1]
         zs = [to_z3(p) for p in ps]
         self.eng.axiom(self.uf(*(zs + [z3.IntVal(0)])) == 0)
-        return Num(self.uf(*(zs + [to_z3(k)])))
+        s = self.uf(*(zs + [to_z3(k)]))
+        if self.zero_rule:
+            self._zero_rule(ps, k, zs, s)
+        return Num(s)
+
+    def _zero_rule(self, ps, k, zs, s):
+        """a sum that is not zero has a non-zero term (by induction on the definition; Skolem witness w per queried sum):
+               S(ps, k) != 0  ->  0 <= w < k  and  term(ps, w) != 0
+        This is what lets `sum over an empty range / of zeros == 0` be concluded without induction in the solver."""
+        e = self.eng
+        seen = e.ghost.setdefault("sigma_zero_rule", set())
+        key = str(s)
+        if key in seen or getattr(self, "_in_zero_rule", False):
+            return
+        seen.add(key)
+        kt = to_z3(k)
+        w = z3.Int(e.uniq("sw"))
+        rng = z3.And(w >= 0, w < kt)
+        self._in_zero_rule = False
+        try:
+            t = e.under(rng, lambda: self.term(*(list(ps) + [Num(w)])), default=None)
+        except Exception:
+            t = None
+        if t is None:
+            return
+        e.axiom(z3.Or(s == 0, z3.And(rng, to_real(to_z3(lift(t))) != 0)))
 
     def unfold(self, *args):
         ps, k = args[:-1], args[-1]
